@@ -1022,6 +1022,107 @@ def _calculus_kinds(ctx, model):
                          note="arithmetic with a non-linear Operator returned an object presented as a LinearOperator")
 
 
+F32_ITEMS = {}
+
+
+def _default_precision_start(ctx):
+    """11. DEFAULT PRECISION (round 6): the library runs in float32 / complex64 unless the caller enables x64, and every
+    other stream of this check enables it.  A worker subprocess WITHOUT jax_enable_x64 (harness/jaxpr_f32_worker.py) takes
+    one seeded configuration of every class plus the whole MixedDtype grid, dtypes mapped to single precision, and for eval
+    and adj: nothing may raise, the returned dtype is the declared one and stays 32-bit, the linearity probe (with the
+    reused-buffer history) passes at the single-precision tolerance, the traced program gets an acceptable verdict and lies
+    in the proved family.  Started here, collected at the end of correspond() (it overlaps with the other streams)."""
+    import subprocess
+    import sys
+
+    items = []
+    for name in ops.all_classes():
+        if name in ("CalculusMixed", "WrappedOptions", "DtypeSweep"):
+            continue  # (results of rejected arithmetic / option sweeps; DtypeSweep already is single precision under x64)
+        cfgs = ops.configs(name, ctx.rng)
+        if name == "MixedDtype":
+            items += [[name, c] for c in cfgs if not c.get("known_id")]
+        elif cfgs:
+            items.append([name, cfgs[int(ctx.rng.integers(0, len(cfgs)))]])
+    F32_ITEMS["items"] = items
+    env = {k: v for k, v in __import__("os").environ.items() if k != "JAX_ENABLE_X64"}
+    p = subprocess.Popen([sys.executable, str(common.VERIF / "harness" / "jaxpr_f32_worker.py")], stdin=subprocess.PIPE, stdout=subprocess.PIPE, stderr=subprocess.PIPE, text=True, env=env)
+    p.stdin.write(json.dumps({"repo": str(common.REPO), "items": items, "seed": ctx.seed}, default=str))
+    p.stdin.close()
+    F32_ITEMS["proc"] = p
+
+
+def _x64_signature(cls, cfg, view):
+    A = ops.build(cls, cfg)
+    for v, fn, shp, dt in ops.views(A, [view]):
+        closed, _ = tr.trace_view(A, v, fn, shp, dt)
+        prog = ir.translate(closed)
+        return [p.split("#")[0] for c, p, _, _ in prog.eqns if not c.startswith("lit") and not p.startswith("convert_element_type")], ir.tag_str(ir.check(prog))
+    return None, None
+
+
+def _default_precision_collect(ctx):
+    p = F32_ITEMS.pop("proc", None)
+    if p is None:
+        return
+    try:
+        so, se = p.stdout.read(), p.stderr.read()
+        p.wait(timeout=900)
+        res = json.loads(so[so.index('{"results"'):])["results"]
+    except Exception as e:  # noqa: BLE001
+        raise common.Infra(f"default-precision worker failed: {e!r} {se[-600:] if 'se' in dir() else ''}") from e
+    sig_cache = {}
+    for r in res:
+        case = {"cls": r["cls"], "config": r["config"], "view": r["view"], "precision": "default (no x64)"}
+        st = r.get("status")
+        ctx.count(f"f32:{st}")
+        if st == "not-presented":
+            continue
+        ctx.case({"f32": f"{r['cls']}.{r['view']}", "status": st, "tag": r.get("tag"), "dtypes": r.get("dtypes")}, ("f32", r["cls"], r["view"], json.dumps(r["config"], sort_keys=True, default=str)[:200]) if st == "ok" else None,
+                 sample_every=11)
+        if st in ("build-raised", "view-raised", "raised"):
+            # does the same configuration work with x64 ?  then only the default mode fails: the defect class of XRayTransform3D.adj
+            try:
+                _x64_signature(r["cls"], r["config"], "eval")
+                works64 = True
+            except Exception:  # noqa: BLE001
+                works64 = False
+            if works64:
+                ctx.disagree("default-precision.raises", case, r.get("detail"), "works with x64", oracle=lambda c, _r=r: {"what": "raises in the default precision mode only", "detail": _r.get("detail"), **c},
+                             note="the operator works with jax_enable_x64 and raises without it (float32 / complex64)")
+            else:
+                ctx.count("f32:raises-in-both-modes")
+            continue
+        if st == "not-translatable":
+            ctx.disagree("default-precision.not-translatable", case, r.get("detail"), "translatable with x64")
+            continue
+        if r.get("probe_bad"):
+            b = dict(r["probe_bad"])
+            b.update(case)
+            ctx.disagree("default-precision.linearity", case, b.get("what"), "linear", oracle=lambda c, _b=b: _b, note="the property fails in the default precision mode")
+        if not r.get("dtype_ok", True):
+            ctx.disagree("default-precision.dtype", case, r.get("dtypes"), "declared 32-bit dtype", note="returned dtype is not the declared one or left single precision")
+        if not r.get("acceptable", True):
+            ctx.disagree("default-precision.verdict", case, r.get("tag"), "acceptable verdict", oracle=lambda c, _r=r: ({**_r["probe_bad"], **c} if _r.get("probe_bad") else None),
+                         note="the program traced in the default precision mode is not structurally linear")
+        ctx.count("f32-in-proved-family" if r.get("in_family") else "f32-outside-proved-family")
+        key = (r["cls"], json.dumps(r["config"], sort_keys=True, default=str), r["view"])
+        try:
+            if key not in sig_cache:
+                sig_cache[key] = _x64_signature(r["cls"], r["config"], r["view"])
+            s64, t64 = sig_cache[key]
+        except Exception:  # noqa: BLE001
+            s64 = t64 = None
+        if s64 is not None:
+            same = s64 == r.get("sig")
+            ctx.count("f32-structure:" + ("same-as-x64" if same else "differs-from-x64"))
+            if not same:
+                ctx.extra.setdefault("f32_structural_differences", []).append({"cls": r["cls"], "view": r["view"], "only_x64": sorted(set(s64) - set(r["sig"])), "only_f32": sorted(set(r["sig"]) - set(s64)),
+                                                                                "len_x64": len(s64), "len_f32": len(r["sig"])})
+            if t64 != r.get("tag"):
+                ctx.count(f"f32-verdict-differs:{t64}->{r.get('tag')}")
+
+
 def _family_programs(ctx, model):
     """9. whole programs under the proved family: Lean's `run` with the interpretation `famDen` (at ℂ: `Fam.famInterp`,
     sound for every table, so `check p = linC` gives linearity of that very `run` with no hypothesis) is executed by the
@@ -1124,9 +1225,10 @@ def correspond(ctx, model):
 
     oracle = oracle_for(ctx.rng)
     timing = ctx.extra.setdefault("timing_s", {})
+    _default_precision_start(ctx)
     for name, fn in (("corpus", lambda: _corpus(ctx, oracle)), ("mirror_vs_lean", lambda: _mirror_vs_lean(ctx, model)),
                      ("probes", lambda: _probes(ctx, ctx.rng)), ("synthetic_scalar", lambda: _synthetic_scalar(ctx, model)),
-                     ("synthetic_jax", lambda: _synthetic_jax(ctx, model)), ("table_validation", lambda: _table_validation(ctx)), ("fidelity", lambda: _fidelity(ctx)), ("family_tie", lambda: _family_tie(ctx, model)), ("family_programs", lambda: _family_programs(ctx, model)), ("calculus_kinds", lambda: _calculus_kinds(ctx, model))):
+                     ("synthetic_jax", lambda: _synthetic_jax(ctx, model)), ("table_validation", lambda: _table_validation(ctx)), ("fidelity", lambda: _fidelity(ctx)), ("family_tie", lambda: _family_tie(ctx, model)), ("family_programs", lambda: _family_programs(ctx, model)), ("calculus_kinds", lambda: _calculus_kinds(ctx, model)), ("default_precision", lambda: _default_precision_collect(ctx))):
         t = time.time()
         fn()
         timing[name] = round(time.time() - t, 1)
